@@ -96,6 +96,29 @@ def check_config(ift, config, r, env):
             for nm, g in got.items():
                 if not np.allclose(g, refh, rtol=1e-12, atol=1e-12):
                     out.append("back end %s: Hartley transform under %s differs from the specification" % (nm, conv))
+            # transforms along ONE axis of a multi-dimensional array: identity on the other axes, the kernel of that axis taken from the
+            # specification's table (turn of (k_ax, 0..0) x (j_ax, 0..0))
+            if len(shape) > 1:
+                for axn in range(len(shape)):
+                    n_ax = shape[axn]
+                    T1 = np.zeros((n_ax, n_ax))
+                    for e in r["times"]:
+                        if all(v == 0 for i_, v in enumerate(e["k"]) if i_ != axn) and all(v == 0 for i_, v in enumerate(e["j"]) if i_ != axn):
+                            T1[e["k"][axn], e["j"][axn]] = q(e["turn"])
+                    sgn = 1. if conv == "non_canonical_hartley" else -1.
+                    K1 = np.cos(2 * np.pi * T1) + sgn * np.sin(2 * np.pi * T1)
+                    refp = np.moveaxis(np.tensordot(K1, a, axes=(1, axn)), 0, axn)
+                    gotp = {"ducc": dd.hartley(A_(a), axes=(axn,)).val, "scipy": dd._scipy_hartley(A_(a), axes=(axn,)).val}
+                    if env is not None:
+                        gotp["jax"] = np.asarray(jcf.hartley(jnp.asarray(a), axes=(axn,)))
+                    for nm, g in gotp.items():
+                        if g.shape != refp.shape or not np.allclose(g, refp, rtol=1e-12, atol=1e-12):
+                            out.append("back end %s: Hartley transform along axis %d only (%s) differs from the specification" % (nm, axn, conv))
+                    F1 = np.exp(2j * np.pi * T1)
+                    reffp = np.moveaxis(np.tensordot(F1, a + 0j, axes=(1, axn)), 0, axn)
+                    for nm, g in {"ducc": dd.fftn(A_(a + 0j), axes=(axn,)).val, "scipy": dd._scipy_fftn(A_(a + 0j), axes=(axn,)).val}.items():
+                        if not np.allclose(g, reffp, rtol=1e-12, atol=1e-12):
+                            out.append("back end %s: fftn along axis %d only differs from the specification" % (nm, axn))
             ac = a + 1j * a[::-1].reshape(shape) if len(shape) == 1 else a + 1j * a.T.reshape(shape) if a.T.shape == a.shape else a + 2j * a
             reff = (M @ ac.ravel()).reshape(shape) / S["vp"]
             for nm, g in {"ducc": dd.fftn(A_(ac)).val, "scipy": dd._scipy_fftn(A_(ac)).val}.items():
@@ -104,6 +127,17 @@ def check_config(ift, config, r, env):
             for nm, g in {"ducc": dd.ifftn(A_(reff)).val, "scipy": dd._scipy_ifftn(A_(reff)).val}.items():
                 if not np.allclose(g, ac, rtol=1e-12, atol=1e-12):
                     out.append("back end %s: ifftn does not invert fftn" % nm)
+        finally:
+            config.update("hartley_convention", "non_canonical_hartley")
+    # the short names of the conventions select the same conventions as the long ones
+    for alias, conv in (("ducc_hartley", "non_canonical_hartley"), ("ducc_fht", "canonical_hartley")):
+        try:
+            config.update("hartley_convention", alias)
+            if config._config.get("hartley_convention") != conv:
+                out.append("hartley_convention=%r selects %r, documented is %r" % (alias, config._config.get("hartley_convention"), conv))
+            D = dense(ift, ift.HartleyOperator(sp), 1)
+            if not np.allclose(D, S[conv][0], rtol=1e-12, atol=1e-13):
+                out.append("HartleyOperator with hartley_convention=%r does not follow the %s convention" % (alias, conv))
         finally:
             config.update("hartley_convention", "non_canonical_hartley")
     # transform on one sub-space of a product domain
